@@ -75,7 +75,10 @@ TRANS = [("0", (0.0, 0.0)), ("near", (3.0, -2.0)), ("far", (100.0, 50.0))]
 GAPS = [("0.1", 0.1), ("0", 0.0), ("-0.1", -0.1), ("1", 1.0)]
 NORMALS = ["fromA", "averaged"]
 RATIOS = [("1", 1.0), ("0.3", 0.3), ("3", 3.0)]
-CLASSES = ["partial-left", "partial-right", "none", "touch", "touch-left", "A-in-B", "B-in-A",
+# band-right / band-left: the overlap ends 1.5 % of L_A before A's far end / starts 1.5 % after its near end, i.e.
+# strictly inside the upper / lower smoothing band of smooth_linear when the smoothing length is 0.03 (added after
+# a seeded change in the upper band went undetected)
+CLASSES = ["partial-left", "partial-right", "band-right", "band-left", "none", "touch", "touch-left", "A-in-B", "B-in-A",
            "A-in-B-flushL", "A-in-B-flushR", "B-in-A-flushL", "B-in-A-flushR", "identical"]
 COINCIDENT_CLASSES = ["touch", "touch-left", "A-in-B-flushL", "A-in-B-flushR", "B-in-A-flushL", "B-in-A-flushR",
                       "identical"]
@@ -105,7 +108,7 @@ def _scales(tier):
 
 
 def _smoothings(tier):
-    return [("1e-7", 1e-7)] if tier == "quick" else [("1e-7", 1e-7), ("1e-9", 1e-9), ("0.03", 0.03)]
+    return [("1e-7", 1e-7), ("0.03", 0.03)] if tier == "quick" else [("1e-7", 1e-7), ("1e-9", 1e-9), ("0.03", 0.03)]
 
 
 def _sweep_n(tier):
@@ -355,6 +358,10 @@ def _place(cls, LA, r):
         return (0.4 * m - LB, 0.4 * m)
     if cls == "partial-right":
         return (LA - 0.4 * m, LA - 0.4 * m + LB)
+    if cls == "band-right":
+        return (0.985 * LA - LB, 0.985 * LA)
+    if cls == "band-left":
+        return (0.015 * LA, 0.015 * LA + LB)
     if cls == "A-in-B":
         return (-(LB - LA) * 0.3, -(LB - LA) * 0.3 + LB) if LB > LA else None
     if cls == "B-in-A":
